@@ -519,7 +519,7 @@ fn main() {
                 } else {
                     "?".to_string()
                 };
-                format!("PANIC {}", msg.replace('\n', " "))
+                format!("PANIC {}", msg.replace(['\n', '\r'], " "))
             }
         };
         let mut o = stdout.lock();
